@@ -128,6 +128,16 @@ def directed_cases():
                     for x in sorted(live, reverse=True):
                         evs.append({"base": ("drop" if x else ("verify", "report", "drop")[(a + m) % 3], x)})
                     out.append({"partial": False, "terms": terms, "events": evs, "_directed": True})
+    # the instance keeps its delegation helper (a clone of itself) cached after a `&self` / `&mut self` / Pin provided call: ending it
+    # with report() / verify() / drop, every expectation met, must be silent - the helper is the instance's own, not an escaped clone
+    for m in (14, 15, 19):
+        for a in (1, 2, 3):
+            for final in ("report", "verify", "drop"):
+                terms = [{"kind": "call", "mid": 10, "opener": "each", "pat": {"matcher": 255, "dbg": 1, "ops": [("ret", 1)]}}]
+                if a >= 2:
+                    terms.append({"kind": "call", "mid": 11, "opener": "each", "pat": {"matcher": 255, "dbg": 2, "ops": [("ret", 2)]}})
+                out.append({"partial": False, "terms": terms, "events": [{"base": ("call", 0, m, a)}, {"base": ("count", 0)}, {"base": (final, 0)}],
+                            "_directed": True})
     return out
 
 
